@@ -21,9 +21,81 @@ func main() {
 			usage()
 		}
 		cmdRun(os.Args[2], os.Args[3])
+	case "gen":
+		// gen <family> <seed> <n> <out.json>
+		if len(os.Args) < 6 {
+			usage()
+		}
+		scs := genFamily(os.Args[2], atoi(os.Args[3]), int(atoi(os.Args[4])))
+		writeJSON(os.Args[5], scs)
+	case "runfile":
+		// runfile <scenarios.json> <outdir> <label> <perfile>
+		if len(os.Args) < 6 {
+			usage()
+		}
+		runChunks(os.Args[4], readScenarios(os.Args[2]), os.Args[3], int(atoi(os.Args[5])))
+	case "genrun":
+		// genrun <family> <seed> <n> <outdir> <perfile>
+		if len(os.Args) < 7 {
+			usage()
+		}
+		cmdGenRun(os.Args[2], atoi(os.Args[3]), int(atoi(os.Args[4])), os.Args[5], int(atoi(os.Args[6])))
 	default:
 		usage()
 	}
+}
+
+func atoi(s string) int64 {
+	var v int64
+	if _, err := fmt.Sscan(s, &v); err != nil {
+		fatal(err)
+	}
+	return v
+}
+
+func writeJSON(path string, v interface{}) {
+	b, err := json.Marshal(v)
+	if err != nil {
+		fatal(err)
+	}
+	if err := os.WriteFile(path, b, 0o644); err != nil {
+		fatal(err)
+	}
+}
+
+// cmdGenRun generates n scenarios of a family and executes them, perfile scenarios
+// per trace file: <outdir>/<family>-<k>.json (replayable scenarios) and .ndjson (trace).
+func cmdGenRun(family string, seed int64, n int, outdir string, perfile int) {
+	scs := genFamily(family, seed, n)
+	runChunks(family, scs, outdir, perfile)
+}
+
+func runChunks(prefix string, scs []Scenario, outdir string, perfile int) {
+	if err := os.MkdirAll(outdir, 0o755); err != nil {
+		fatal(err)
+	}
+	total := map[string]int{}
+	for k := 0; k*perfile < len(scs); k++ {
+		hi := (k + 1) * perfile
+		if hi > len(scs) {
+			hi = len(scs)
+		}
+		chunk := scs[k*perfile : hi]
+		base := fmt.Sprintf("%s/%s-%04d", outdir, prefix, k)
+		writeJSON(base+".json", chunk)
+		tr, err := NewTrace(base + ".ndjson")
+		if err != nil {
+			fatal(err)
+		}
+		cov := runScenarios(chunk, tr, outdir)
+		if err := tr.Close(); err != nil {
+			fatal(err)
+		}
+		for c, v := range cov {
+			total[c] += v
+		}
+	}
+	writeCov(fmt.Sprintf("%s/%s.cov.json", outdir, prefix), total)
 }
 
 func readScenarios(path string) []Scenario {
